@@ -867,6 +867,23 @@ func runC16(c *CaseCtx) *CaseResult {
 							return fail(err)
 						}
 					}
+					// ... and two ROOT containers of the failing type (their type info is encoded with the root slab's
+					// extra data, a different place from the inlined children's)
+					ra, errA := wt.NewRootArray(addrOf(9, 1), TI{ID: badType})
+					rm, errM := wt.NewRootMap(addrOf(9, 2), TI{ID: badType}, nil)
+					if errA != nil || errM != nil {
+						return fail(viol("harness", "%v %v", errA, errM))
+					}
+					wt.AddRoot(ra)
+					wt.AddRoot(rm)
+					for i := 0; i < 30; i++ {
+						if err := wt.OpArrayAppend(ra, &Node{Kind: KU64, U: uint64(i)}); err != nil {
+							return fail(err)
+						}
+						if err := wt.OpMapSet(rm, &Node{Kind: KU64, U: uint64(i)}, &Node{Kind: KU64, U: uint64(i)}); err != nil {
+							return fail(err)
+						}
+					}
 					tiFailID.Store(badType)
 					for round := 0; round < 8; round++ {
 						wt.led.inCommit = true
